@@ -53,6 +53,12 @@ void vh_disarm_timer (void);
 #define VH_TRY(ms) (vh_arm_timer (ms), vh_armed = 1, sigsetjmp (vh_env, 1))
 #define VH_END() do { vh_armed = 0; vh_disarm_timer (); } while (0)
 const char *vh_fatal_name (int k);
+/* when set, a fatal outcome (abort/assert/signal, e.g. after a sanitizer report) prints a
+   violation for the current case (vh_cur_case: JSON object text, vh_cur_sig: signature tail)
+   and ends the shard with status 3 instead of continuing in a possibly corrupted process */
+extern int vh_fatal_exit;
+extern const char *vh_cur_case, *vh_cur_sig;
+extern char vh_san_desc[128];     /* filled by the sanitizer error hook when available */
 
 /* ---- guarded memory ---------------------------------------------------- */
 /* block of N usable bytes ending exactly at a PROT_NONE page; start is
